@@ -620,6 +620,8 @@ func (w *BitmapWriter) Write(bit bool) {
 	}
 	if bit {
 		w.buf[w.pos>>3] = w.buf[w.pos>>3] | (0x80 >> (w.pos & 7))
+	} else {
+		w.buf[w.pos>>3] = w.buf[w.pos>>3] &^ (0x80 >> (w.pos & 7)) // the buffer that was passed in may hold other data
 	}
 	w.pos += 1
 }
